@@ -11,6 +11,26 @@ pub struct M1(pub u8);
 pub struct M2(pub u16);
 pub struct M3(pub u64);
 
+/// take up to `limit` items; len() must go down by exactly one per item and be 0 exactly at the end
+fn walk_exact<I: ExactSizeIterator>(it: &mut I, limit: usize, items: &mut Vec<I::Item>) -> bool {
+    let mut ok = true;
+    let mut len = it.len();
+    while items.len() < limit {
+        match it.next() {
+            Some(x) => {
+                items.push(x);
+                ok &= len > 0 && it.len() == len - 1;
+                len = it.len();
+            }
+            None => {
+                ok &= len == 0;
+                break;
+            }
+        }
+    }
+    ok
+}
+
 pub fn run(args: &[u64], out: &mut Out) {
     let mut world = World::new();
     let mut tracker = ChangeTracker::<Tk>::new();
@@ -98,12 +118,20 @@ pub fn run(args: &[u64], out: &mut Out) {
                     for (kind, limit) in reads {
                         match kind {
                             0 => {
-                                let it = ch.added();
+                                let mut it = ch.added();
                                 let len = it.len();
                                 if limit < 255 {
-                                    out.push(it.take(limit as usize).count() as u64);
+                                    let mut items = Vec::new();
+                                    if !walk_exact(&mut it, limit as usize, &mut items) {
+                                        out.flag("C18: added(): len() does not count the items still to come".to_string());
+                                    }
+                                    out.push(items.len() as u64);
                                 } else {
-                                    let mut v: Vec<(u64, u32)> = it.map(|(e, t)| (e.to_bits().into(), t.0)).collect();
+                                    let mut items = Vec::new();
+                                    if !walk_exact(&mut it, usize::MAX, &mut items) {
+                                        out.flag("C18: added(): len() does not count the items still to come".to_string());
+                                    }
+                                    let mut v: Vec<(u64, u32)> = items.into_iter().map(|(e, t)| (e.to_bits().into(), t.0)).collect();
                                     v.sort();
                                     if len != v.len() {
                                         out.flag(format!("C18: added().len() = {len} but {} items were yielded", v.len()));
@@ -139,12 +167,20 @@ pub fn run(args: &[u64], out: &mut Out) {
                                 seen_c = true;
                             }
                             _ => {
-                                let it = ch.removed();
+                                let mut it = ch.removed();
                                 let len = it.len();
                                 if limit < 255 {
-                                    out.push(it.take(limit as usize).count() as u64);
+                                    let mut items = Vec::new();
+                                    if !walk_exact(&mut it, limit as usize, &mut items) {
+                                        out.flag("C18: removed(): len() does not count the items still to come".to_string());
+                                    }
+                                    out.push(items.len() as u64);
                                 } else {
-                                    let mut v: Vec<(u64, u32)> = it.map(|(e, o)| (e.to_bits().into(), o.0)).collect();
+                                    let mut items = Vec::new();
+                                    if !walk_exact(&mut it, usize::MAX, &mut items) {
+                                        out.flag("C18: removed(): len() does not count the items still to come".to_string());
+                                    }
+                                    let mut v: Vec<(u64, u32)> = items.into_iter().map(|(e, o)| (e.to_bits().into(), o.0)).collect();
                                     v.sort();
                                     if len != v.len() {
                                         out.flag(format!("C18: removed().len() = {len} but {} items were yielded", v.len()));
